@@ -83,3 +83,87 @@ Proof.
   - destruct (Nat.ltb_spec (dur + tol) limit) as [Hl|Hl]; [specialize (H1 Hl); lia|].
     destruct (Nat.ltb_spec (limit + tol) dur); [left; reflexivity|right; left; reflexivity].
 Qed.
+
+(* ---------- nested limits ---------- *)
+Definition nquiet (s : nstate) : Prop :=
+  match s with (OReturned _, _, WRunning _ _) => False | _ => True end.
+
+Lemma nstep_quiet p s e : nquiet s -> nquiet (nstep true p s e).
+Proof.
+  destruct s as [[o m] w]. intros H.
+  destruct o as [| |r]; [| |exact H];
+    destruct m as [pend|pend rr| |]; destruct w as [k inj| |]; try exact I; try destruct inj; try exact I;
+    destruct e; simpl;
+    repeat (match goal with |- context [if ?b then _ else _] => destruct b end); simpl; exact I.
+Qed.
+
+Lemma nfold_quiet p : forall sched s, nquiet s -> nquiet (fold_left (nstep true p) sched s).
+Proof. induction sched as [|e t IH]; intros s Hs; simpl; [exact Hs|apply IH, nstep_quiet, Hs]. Qed.
+
+Theorem nested_nothing_running p sched o m w : nrun true p sched = (OReturned o, m, w) -> w = WDone \/ w = WDead.
+Proof.
+  intros H. assert (Hq : nquiet (nrun true p sched)) by (apply nfold_quiet; exact I).
+  rewrite H in Hq. destruct w; simpl in Hq; [contradiction|left; reflexivity|right; reflexivity].
+Qed.
+
+(* the middle thread has ended as well *)
+Definition mquiet (s : nstate) : Prop :=
+  match s with (OReturned _, MidWaiting _, _) | (OReturned _, MidJoining _ _, _) => False | _ => True end.
+Lemma nstep_mquiet fx p s e : mquiet s -> mquiet (nstep fx p s e).
+Proof.
+  destruct s as [[o m] w]. intros H.
+  destruct o as [| |r]; [| |exact H];
+    destruct m as [pend|pend rr| |]; destruct w as [k inj| |]; try exact I; try destruct inj; try exact I;
+    destruct e; simpl;
+    repeat (match goal with |- context [if ?b then _ else _] => destruct b end); simpl; exact I.
+Qed.
+Lemma nfold_mquiet fx p : forall sched s, mquiet s -> mquiet (fold_left (nstep fx p) sched s).
+Proof. induction sched as [|e t IH]; intros s Hs; simpl; [exact Hs|apply IH, nstep_mquiet, Hs]. Qed.
+Theorem nested_middle_ended fx p sched o m w : nrun fx p sched = (OReturned o, m, w) -> m = MidDone \/ m = MidDead.
+Proof.
+  intros H. assert (Hq : mquiet (nrun fx p sched)) by (apply nfold_mquiet; exact I).
+  rewrite H in Hq. destruct m; simpl in Hq; try contradiction; [left|right]; reflexivity.
+Qed.
+
+(* the caller gets the function's result or TimeoutError, nothing else *)
+Definition nout_ok (p : prog) (s : nstate) : Prop :=
+  match s with (OReturned o, _, _) => o = p_res p \/ o = OTimeout | _ => True end.
+Lemma nstep_out fx p s e : nout_ok p s -> nout_ok p (nstep fx p s e).
+Proof.
+  destruct s as [[o m] w]. intros H.
+  destruct o as [| |r]; [| |exact H];
+    destruct m as [pend|pend rr| |]; destruct w as [k inj| |]; try exact I; try destruct inj; try exact I;
+    destruct e; simpl;
+    repeat (match goal with |- context [if ?b then _ else _] => destruct b end); simpl;
+    try exact I; try (left; reflexivity); try (right; reflexivity).
+Qed.
+Lemma nfold_out fx p : forall sched s, nout_ok p s -> nout_ok p (fold_left (nstep fx p) sched s).
+Proof. induction sched as [|e t IH]; intros s Hs; simpl; [exact Hs|apply IH, nstep_out, Hs]. Qed.
+Theorem nested_outcome fx p sched o m w : nrun fx p sched = (OReturned o, m, w) -> o = p_res p \/ o = OTimeout.
+Proof.
+  intros H. assert (Hq : nout_ok p (nrun fx p sched)) by (apply nfold_out; exact I).
+  rewrite H in Hq. exact Hq.
+Qed.
+
+(* a returned nested call is final *)
+Lemma nrun_returned_stays fx p sched : forall o m w, fold_left (nstep fx p) sched (OReturned o, m, w) = (OReturned o, m, w).
+Proof. induction sched as [|e t IH]; intros o m w; simpl; [reflexivity|apply IH]. Qed.
+
+(* as found: the outer limit expires first, then the inner wait; the caller has TimeoutError, the function still runs *)
+Theorem nested_leak_refuted :
+  exists p sched o m k inj, nrun false p sched = (OReturned o, m, WRunning k inj).
+Proof.
+  exists {| p_dur := 5; p_res := OValue 7; p_swallow := false |}, [NTick; NExpireO; NTick; NExpireI], OTimeout, MidDead, 2, false.
+  vm_compute. reflexivity.
+Qed.
+
+(* the bounded exploration used by the driver is sound for the leak question: it only lists reachable states *)
+Lemma nreach_reachable fx p : forall n s s', In s' (nreach fx p n s) -> exists sched, length sched = n /\ fold_left (nstep fx p) sched s = s'.
+Proof.
+  induction n as [|n IH]; intros s s' H; simpl in H.
+  - destruct H as [<-|[]]. exists []. split; reflexivity.
+  - rewrite !in_app_iff in H. destruct H as [H|[H|[H|H]]]; try (simpl in H; contradiction);
+      [destruct (IH _ _ H) as (t & Hl & Ht); exists (NTick :: t)|
+       destruct (IH _ _ H) as (t & Hl & Ht); exists (NExpireI :: t)|
+       destruct (IH _ _ H) as (t & Hl & Ht); exists (NExpireO :: t)]; (split; [simpl; lia|simpl; exact Ht]).
+Qed.
